@@ -544,6 +544,8 @@ def indirect_random(ctx, n):
     out = []
     for _ in range(n):
         t = rand_param(rng)
+        if t[0] in ("all", "posall") and rng.random() < 0.6:      # list references are tied to the model only: favour scalars
+            t = rng.choice(scalar_params(None if rng.random() < 0.3 else rand_value(rng)))
         r = rng.random()
         if r < 0.1:
             op = ("plain",)
@@ -733,7 +735,7 @@ def load_corpus():
                         c = Case.__new__(Case)
                         c.tag, c.param, c.op, c.nounset = "corpus", None, None, False
                         c.setup, c.word, c.probe, c.wire = rec["setup"], rec["word"], rec["probe"], rec["wire"]
-                        c.no_oracle = False
+                        c.no_oracle = bool(re.search(r" IND ok [AP][@*] ", rec["wire"]))
                         c.feat = rec["wire"].split(" ")
                         c.feat = next((t for t in ("plain", "len", "sub", "rmx", "rm") if t in c.feat), "test")
                     else:
